@@ -19,7 +19,7 @@ Proof.
     destruct (meta_get s TH k); auto. now rewrite B2.
   - destruct B as [B1 B2]; [discriminate|]. unfold read_coll, coll_header. rewrite B1.
     destruct (meta_get s TS k); auto. now rewrite B2.
-  - destruct B as [B1 B2]; [discriminate|]. unfold read_coll, coll_header. rewrite B1.
+  - destruct B as [B1 B2]; [discriminate|]. unfold read_coll, coll_header, zidx. rewrite B1.
     destruct (meta_get s TZ k); auto. now rewrite B2.
   - destruct B as [B1 B2]; [discriminate|]. unfold read_coll, coll_header. rewrite B1.
     destruct (meta_get s TL k); auto. now rewrite B2.
@@ -165,6 +165,13 @@ Qed.
 Lemma tidx_do_mset ts kvl : forall s, tidx (do_mset Local s ts kvl) = tidx s.
 Proof. induction kvl as [|[a b] kvl IH]; intros s; simpl; auto. now rewrite IH. Qed.
 
+Lemma tidx_zset_item s k v st x : tidx (zset_item s k v st x) = tidx st.
+Proof. unfold zset_item. destruct x. destruct (el_get s TZ k v (SB b)); [destruct (score_of e =? z)|]; reflexivity. Qed.
+Lemma tidx_zdel_item s k v st x : tidx (zdel_item s k v st x) = tidx st.
+Proof. unfold zdel_item. destruct (el_get s TZ k v (SB x)); reflexivity. Qed.
+Lemma tidx_zrem_entries s k h ud ents : tidx (fst (zrem_entries s k h ud ents)) = tidx s.
+Proof. unfold zrem_entries. cbn [fst]. rewrite tidx_incr_size. apply tidx_fold. intros; apply tidx_zdel_item. Qed.
+
 Theorem local_index_provenance s ts c e :
   In e (tidx (fst (step Local s ts c))) -> In e (tidx s) \/ requested ts c e.
 Proof.
@@ -226,12 +233,13 @@ Proof.
     destruct (coll_header Local s ts TS k) as [[h ud] ex]. destruct (not_exist_or_expired ud ex); cbn [fst]; auto.
     destruct (size_of ud =? 0); cbn [fst]; auto. rewrite tidx_coll_rem. auto.
   - (* zadd *) unfold do_zadd. destruct sml; cbn [fst]; auto. destruct (coll_prepare Local s ts TZ k) as [[h ud] ex]. cbn [fst].
-    rewrite tidx_incr_size, tidx_fold; auto.
+    rewrite tidx_incr_size, tidx_fold; auto. intros; apply tidx_zset_item.
   - (* zincrby *) unfold do_zincrby. destruct (coll_prepare Local s ts TZ k) as [[h ud] ex].
     destruct (el_get s TZ k (h_ver h) (SB m)); cbn [fst]; auto. unfold el_put. cbn [tidx]. rewrite tidx_incr_size. auto.
-  - (* zrem *) rewrite tidx_coll_rem. auto.
+  - (* zrem *) unfold do_zrem. destruct ms; cbn [fst]; auto. destruct (coll_header Local s ts TZ k) as [[h ud] ex].
+    destruct ex; cbn [fst]; auto. rewrite tidx_incr_size, tidx_fold; auto. intros; apply tidx_zdel_item.
   - (* zremrangebyscore *) unfold do_zremrangebyscore. destruct (coll_header Local s ts TZ k) as [[h ud] ex].
-    destruct ex; cbn [fst]; auto. destruct (size_of ud =? 0); cbn [fst]; auto. rewrite tidx_incr_size, tidx_fold; auto.
+    destruct ex; cbn [fst]; auto. destruct (size_of ud =? 0); cbn [fst]; auto. rewrite tidx_zrem_entries. auto.
   - (* lpush *) unfold do_lpush. destruct (Z.of_nat (length vs) >? max_batch_num); cbn [fst]; auto.
     destruct (coll_prepare Local s ts TL k) as [[h ud] ex]. destruct (list_meta_of ud) as [[hd0 tl0] size].
     destruct vs; cbn [fst]; auto.
@@ -274,8 +282,7 @@ Proof.
     match goal with |- context [if ?c then _ else _] => destruct c end.
     { destruct (not_exist_or_expired ud false); cbn [fst]; auto. }
     match goal with |- context [if ?c then _ else _] => destruct c end; cbn [fst]; auto.
-    match goal with |- context [if ?c then _ else _] => destruct c end; cbn [fst]; rewrite tidx_incr_size; auto.
-    rewrite tidx_fold; auto.
+    match goal with |- context [if ?c then _ else _] => destruct c end; [cbn [fst]; rewrite tidx_incr_size; auto | rewrite tidx_zrem_entries; auto].
 Qed.
 
 Lemma tidx_local_del_key s e e' : In e' (tidx (local_del_key s e)) -> In e' (tidx s).
